@@ -211,6 +211,9 @@ type Listener struct {
 	// TempWhenClosed: once closed, Accept keeps reporting a TEMPORARY error (a listener may: "use of closed connection" is
 	// only a convention) instead of ErrListenerClosed
 	TempWhenClosed bool
+	// CloseAgainErr: what Close reports when the listener is closed already (net.TCPListener reports "use of closed network
+	// connection"; a listener of the application's may report whatever it likes)
+	CloseAgainErr error
 }
 
 func NewListener() *Listener {
@@ -271,10 +274,15 @@ func (l *Listener) Accept() (net.Conn, error) {
 }
 
 func (l *Listener) Close() error {
+	first := false
 	l.once.Do(func() {
+		first = true
 		l.Log.Add("listener:close")
 		close(l.closed)
 	})
+	if !first {
+		return l.CloseAgainErr
+	}
 	return nil
 }
 
